@@ -1,4 +1,5 @@
 import BlobfinderModel.Proofs.Pipeline
+import BlobfinderModel.Proofs.Kernels
 import BlobfinderModel.Properties.C13
 import Mathlib.Algebra.BigOperators.Group.Finset.Basic
 /-!
@@ -117,21 +118,6 @@ theorem refineCenter_transpose (corr : ℤ → ℤ → ℚ) (h w cy cx : ℤ) (h
         = lsum (flat (fun (y x : ℤ) => (cut y x - mn) * (y : ℚ)) N N) :=
       lsum_flat_transpose (fun (y x : ℤ) => (cut y x - mn) * (y : ℚ)) N N
     rw [e0, e1, e2]
-
-/-- the candidate slopes of the elevation, as a list -/
-def elevCands (corr : ℤ → ℤ → ℚ) (h w : ℤ) (py px height : ℚ) : List ℚ :=
-  (irange h).flatMap fun (y : ℤ) => (irange w).filterMap fun (x : ℤ) =>
-    let d2 := ((y : ℚ) - py) ^ 2 + ((x : ℚ) - px) ^ 2
-    if Gen.elev_rmin * Gen.elev_rmin ≤ d2 then some ((height - corr y x) ^ 2 / d2) else none
-
-theorem elevation2_eq (corr : ℤ → ℤ → ℚ) (h w : ℤ) (py px height : ℚ) :
-    elevation2 corr h w py px height
-      = if elevCands corr h w py px height = [] then none else some (minList (elevCands corr h w py px height)) := by
-  unfold elevation2
-  show (match elevCands corr h w py px height with | [] => none | c :: t => some (t.foldl (fun a b => rmin a b) c)) = _
-  cases hc : elevCands corr h w py px height with
-  | nil => simp
-  | cons c t => simp [minList]
 
 theorem mem_elevCands (corr : ℤ → ℤ → ℚ) (h w : ℤ) (py px height v : ℚ) :
     v ∈ elevCands corr h w py px height ↔
